@@ -147,6 +147,54 @@ fn consume_one(t: usize, id: i32, tag: i64, errno: u64, local: &mut Vec<Value>) 
                       "desc_ok": desc_ok, "second_null": again.is_none()}));
 }
 
+/// Several threads consume the SAME id at the same moment (barrier): at most one of them may get the error.
+/// Only rounds in which the property is at stake are returned in full (those with more than one winner) plus a
+/// few ordinary ones; the counters cover all rounds.
+pub fn race_same(c: &Value) -> Value {
+    let nthreads = c.get("threads").and_then(|v| v.as_u64()).unwrap_or(4) as usize;
+    let rounds = c.get("rounds").and_then(|v| v.as_u64()).unwrap_or(2000) as usize;
+    let mut history: Vec<Value> = Vec::new();
+    let mut multi = 0u64;
+    let mut none = 0u64;
+    for r in 0..rounds {
+        let s = seq();
+        let (id, errno) = fail("enoent", 0, r);
+        let e = seq();
+        let tag = (r as i64) + 1;
+        let barrier = Arc::new(std::sync::Barrier::new(nthreads));
+        let mut hs = Vec::new();
+        for t in 0..nthreads {
+            let b = barrier.clone();
+            hs.push(std::thread::spawn(move || {
+                b.wait();
+                let s = seq();
+                let got = consume(id);
+                let e = seq();
+                (t, s, e, got)
+            }));
+        }
+        let outs: Vec<_> = hs.into_iter().filter_map(|h| h.join().ok()).collect();
+        let winners = outs.iter().filter(|o| o.3.is_some()).count();
+        if winners > 1 {
+            multi += 1;
+        }
+        if winners == 0 {
+            none += 1;
+        }
+        if winners != 1 && history.len() < 400 || r < 3 {
+            history.push(json!({"ev": "fail", "t": 0, "start": s, "end": e, "id": id, "tag": tag, "kind": "enoent", "errno": errno}));
+            for (t, s, e, got) in outs {
+                let (g, en) = match &got {
+                    None => (0i64, 0u64),
+                    Some((en, _)) => (tag, *en),
+                };
+                history.push(json!({"ev": "cons", "t": t + 1, "start": s, "end": e, "id": id, "tag": tag, "got": g, "errno": en, "want_errno": errno, "desc_ok": got.is_some(), "second_null": true}));
+            }
+        }
+    }
+    json!({"ok": true, "history": history, "rounds": rounds, "multi_winner_rounds": multi, "no_winner_rounds": none})
+}
+
 pub fn birthday(c: &Value) -> Value {
     let n = c.get("n").and_then(|v| v.as_u64()).unwrap_or(100_000) as usize;
     let mut ids: Vec<i32> = Vec::with_capacity(n);
